@@ -159,3 +159,47 @@ package treebidimap
 //@     invariant ItInv(iterator) && Cur(iterator) <= old(Cur(iterator))
 //@     invariant forall j :: Cur(iterator) <= j && j < old(Cur(iterator)) && 0 <= j ==> !f(redblacktree.KeyAt(iterator.iterator.tree, j), redblacktree.ValAt(iterator.iterator.tree, j))
 //@     decreases Cur(iterator) + 1
+
+// ---- enumerable (C14): agree with iteration, receiver unchanged ----
+
+//@ -- Each: f is applied exactly to the iterator's pairs at positions 0..n-1, in that order, once each (ghost call log)
+//@ func Map.Each
+//@   requires Inv(m) && f != nil
+//@   modifies nothing
+//@   ensures [C14 C17 C18] loglen == old(loglen) + m.forwardMap.size
+//@   ensures [C14] calls: forall j :: 0 <= j && j < m.forwardMap.size ==> logfun(old(loglen) + j) == f && logarg(old(loglen) + j, 0, argof(m.forwardMap.Comparator, 0)) == redblacktree.KeyAt(m.forwardMap, j) && logarg(old(loglen) + j, 1, m.forwardMap.Root.Value) == redblacktree.ValAt(m.forwardMap, j)
+//@   loop 1:
+//@     invariant ItInv(iterator) && iterator.iterator.tree == m.forwardMap && fresh(iterator) && fresh(iterator.iterator) && loglen == old(loglen) + min(Cur(iterator) + 1, m.forwardMap.size)
+//@     invariant forall j :: 0 <= j && j <= Cur(iterator) && j < m.forwardMap.size ==> logfun(old(loglen) + j) == f && logarg(old(loglen) + j, 0, argof(m.forwardMap.Comparator, 0)) == redblacktree.KeyAt(m.forwardMap, j) && logarg(old(loglen) + j, 1, m.forwardMap.Root.Value) == redblacktree.ValAt(m.forwardMap, j)
+//@     decreases m.forwardMap.size - Cur(iterator)
+
+//@ func Map.Any
+//@   requires Inv(m) && f != nil
+//@   modifies nothing
+//@   ensures [C14 C17 C18] result == (exists j :: 0 <= j && j < m.forwardMap.size && f(redblacktree.KeyAt(m.forwardMap, j), redblacktree.ValAt(m.forwardMap, j)))
+//@   loop 1:
+//@     invariant ItInv(iterator) && iterator.iterator.tree == m.forwardMap && fresh(iterator) && fresh(iterator.iterator)
+//@     invariant forall j :: 0 <= j && j <= Cur(iterator) && j < m.forwardMap.size ==> !f(redblacktree.KeyAt(m.forwardMap, j), redblacktree.ValAt(m.forwardMap, j))
+//@     decreases m.forwardMap.size - Cur(iterator)
+
+//@ func Map.All
+//@   requires Inv(m) && f != nil
+//@   modifies nothing
+//@   ensures [C14 C17 C18] result == (forall j :: 0 <= j && j < m.forwardMap.size ==> f(redblacktree.KeyAt(m.forwardMap, j), redblacktree.ValAt(m.forwardMap, j)))
+//@   loop 1:
+//@     invariant ItInv(iterator) && iterator.iterator.tree == m.forwardMap && fresh(iterator) && fresh(iterator.iterator)
+//@     invariant forall j :: 0 <= j && j <= Cur(iterator) && j < m.forwardMap.size ==> f(redblacktree.KeyAt(m.forwardMap, j), redblacktree.ValAt(m.forwardMap, j))
+//@     decreases m.forwardMap.size - Cur(iterator)
+
+//@ func Map.Find
+//@   requires Inv(m) && f != nil
+//@   modifies nothing
+//@   ghostvar p := 0 - 1
+//@   at exit: p := ite(Cur(iterator) < m.forwardMap.size && Cur(iterator) >= 0 && f(redblacktree.KeyAt(m.forwardMap, Cur(iterator)), redblacktree.ValAt(m.forwardMap, Cur(iterator))), Cur(iterator), 0 - 1)
+//@   ghostresult p int
+//@   ensures [C14 C17 C18] found: p >= 0 ==> p < m.forwardMap.size && result0 == redblacktree.KeyAt(m.forwardMap, p) && result1 == redblacktree.ValAt(m.forwardMap, p) && f(redblacktree.KeyAt(m.forwardMap, p), redblacktree.ValAt(m.forwardMap, p)) && (forall j :: 0 <= j && j < p ==> !f(redblacktree.KeyAt(m.forwardMap, j), redblacktree.ValAt(m.forwardMap, j)))
+//@   ensures [C14 C17 C18] notfound: p < 0 ==> result0 == zero(result0) && result1 == zero(result1) && (forall j :: 0 <= j && j < m.forwardMap.size ==> !f(redblacktree.KeyAt(m.forwardMap, j), redblacktree.ValAt(m.forwardMap, j)))
+//@   loop 1:
+//@     invariant ItInv(iterator) && iterator.iterator.tree == m.forwardMap && fresh(iterator) && fresh(iterator.iterator)
+//@     invariant forall j :: 0 <= j && j <= Cur(iterator) && j < m.forwardMap.size ==> !f(redblacktree.KeyAt(m.forwardMap, j), redblacktree.ValAt(m.forwardMap, j))
+//@     decreases m.forwardMap.size - Cur(iterator)
